@@ -12,19 +12,24 @@ import (
 // ---------------------------------------------------------------------------
 
 const preludeSorts = `(set-logic ALL)
-(declare-datatypes ((Loc 0)) (((LNil) (LRoot (rid Int)) (LField (fpar Loc) (fidx Int)) (LElem (epar Loc) (eidx (_ BitVec 64))))))
+(declare-datatypes ((Path 0)) (((PNil) (PField (pfpar Path) (pfidx Int)) (PElem (pepar Path) (peidx (_ BitVec 64))))))
+(declare-datatypes ((Loc 0)) (((mkloc (lroot Int) (lpath Path)))))
+(define-fun LNil () Loc (mkloc (- 1) PNil))
+(define-fun LRoot ((i Int)) Loc (mkloc i PNil))
+(define-fun LField ((p Loc) (i Int)) Loc (mkloc (lroot p) (PField (lpath p) i)))
+(define-fun LElem ((p Loc) (i (_ BitVec 64))) Loc (mkloc (lroot p) (PElem (lpath p) i)))
+(define-fun isLField ((l Loc)) Bool ((_ is PField) (lpath l)))
+(define-fun isLElem ((l Loc)) Bool ((_ is PElem) (lpath l)))
+(define-fun fpar ((l Loc)) Loc (mkloc (lroot l) (pfpar (lpath l))))
+(define-fun fidx ((l Loc)) Int (pfidx (lpath l)))
+(define-fun epar ((l Loc)) Loc (mkloc (lroot l) (pepar (lpath l))))
+(define-fun eidx ((l Loc)) (_ BitVec 64) (peidx (lpath l)))
+(define-fun root ((l Loc)) Int (lroot l))
 (declare-datatypes ((Slice 0)) (((mkslice (sarr Loc) (soff (_ BitVec 64)) (slen (_ BitVec 64)) (scap (_ BitVec 64))))))
 (declare-datatypes ((Iface 0)) (((mkiface (itag Int) (idat Loc)))))
 (declare-sort Str 0)
 (declare-sort TimeT 0)
 (declare-sort Opq 0)
-(define-fun root0 ((l Loc)) Int (ite ((_ is LRoot) l) (rid l) (- 1)))
-(define-fun lparent ((l Loc)) Loc (ite ((_ is LField) l) (fpar l) (ite ((_ is LElem) l) (epar l) l)))
-(define-fun root1 ((l Loc)) Int (ite ((_ is LRoot) l) (rid l) (ite ((_ is LNil) l) (- 1) (root0 (lparent l)))))
-(define-fun root2 ((l Loc)) Int (ite ((_ is LRoot) l) (rid l) (ite ((_ is LNil) l) (- 1) (root1 (lparent l)))))
-(define-fun root3 ((l Loc)) Int (ite ((_ is LRoot) l) (rid l) (ite ((_ is LNil) l) (- 1) (root2 (lparent l)))))
-(define-fun root4 ((l Loc)) Int (ite ((_ is LRoot) l) (rid l) (ite ((_ is LNil) l) (- 1) (root3 (lparent l)))))
-(define-fun root ((l Loc)) Int (ite ((_ is LRoot) l) (rid l) (ite ((_ is LNil) l) (- 1) (root4 (lparent l)))))
 (declare-fun s_len (Str) (_ BitVec 64))
 (declare-fun s_at (Str (_ BitVec 64)) (_ BitVec 8))
 (declare-fun s_cat (Str Str) Str)
